@@ -121,3 +121,6 @@ for _n, _file, _st in [("register_address", "ant-registers/src/address.rs", "Reg
                        ("payment_quote", "ant-evm/src/data_payments.rs", "PaymentQuote"),
                        ("quoting_metrics", "evmlib/src/quoting_metrics.rs", "QuotingMetrics")]:
     const("msg_fields_" + _n, _file, _struct_fields(_st), ty="list string")
+
+# ---- ant-node/src/quote.rs (C13): the window within which other nodes' quotes are compared with ours
+const("quote_time_gap_secs", "ant-node/src/quote.rs", r"let time_gap = Duration::from_secs\((\d+)\);")
